@@ -183,6 +183,84 @@ fn scaling_program(family: &str, n: usize) -> String {
     t
 }
 
+/// `simctl rss <family> <n>`: assemble and run one program of that size in this process and leave
+/// (the supervisor reads the peak resident set of the process from /usr/bin/time)
+pub fn rss_main(args: &[String]) -> i32 {
+    let family = args.get(0).cloned().unwrap_or_default();
+    let n: usize = args.get(1).and_then(|x| x.parse().ok()).unwrap_or(1);
+    let r = std::thread::Builder::new().stack_size(64 << 20).spawn(move || {
+        let mut scn = Scenario::new(scaling_program(&family, n).as_bytes());
+        scn.fuel = 1500;
+        let (h, _) = crate::world::run_here(&scn, None);
+        if h.panic().is_some() {
+            3
+        } else {
+            0
+        }
+    });
+    r.ok().and_then(|t| t.join().ok()).unwrap_or(2)
+}
+
+/// peak resident set (KiB) of a fresh process that handles one program of `family` at size `n`
+fn peak_rss_kib(family: &str, n: usize) -> Option<u64> {
+    let exe = std::env::current_exe().ok()?;
+    let out = std::process::Command::new("/usr/bin/time")
+        .arg("-f")
+        .arg("RSSKIB %M")
+        .arg(exe)
+        .arg("rss")
+        .arg(family)
+        .arg(n.to_string())
+        .stdin(std::process::Stdio::null())
+        .stdout(std::process::Stdio::null())
+        .output()
+        .ok()?;
+    let err = String::from_utf8_lossy(&out.stderr).into_owned();
+    err.lines().rev().find_map(|l| l.strip_prefix("RSSKIB ").and_then(|x| x.trim().parse::<u64>().ok()))
+}
+
+/// Memory proportional to the input (thorough tier): every size family at n and 4n in fresh
+/// processes; the growth over an empty program may be at most tenfold (and must exceed 256 MiB
+/// to matter). Returns (table for the evidence, violations).
+pub fn memory_scaling(thorough: bool) -> (serde_json::Value, Vec<(String, String)>) {
+    let mut table = serde_json::Map::new();
+    let mut viols = Vec::new();
+    let base = match peak_rss_kib("labels", 1) {
+        Some(b) => b,
+        None => return (serde_json::json!({ "status": "not measured (/usr/bin/time unavailable)" }), viols),
+    };
+    table.insert("empty_program_kib".to_owned(), serde_json::json!(base));
+    for family in SCALING_FAMILIES.iter() {
+        let n = match (*family, thorough) {
+            ("macro_uses", _) => 250,
+            ("prints", _) => 350,
+            (_, true) => 100_000,
+            (_, false) => 6_000,
+        };
+        let (small, big) = match (peak_rss_kib(family, n), peak_rss_kib(family, 4 * n)) {
+            (Some(a), Some(b)) => (a, b),
+            _ => continue,
+        };
+        table.insert((*family).to_owned(), serde_json::json!({ "lines": n, "kib": small, "lines_x4": 4 * n, "kib_x4": big }));
+        let ds = small.saturating_sub(base).max(8 * 1024);
+        let db = big.saturating_sub(base);
+        if db > 256 * 1024 && db > 10 * ds {
+            // once more before it is reported
+            if let (Some(a), Some(b)) = (peak_rss_kib(family, n), peak_rss_kib(family, 4 * n)) {
+                let ds2 = a.saturating_sub(base).max(8 * 1024);
+                let db2 = b.saturating_sub(base);
+                if db2 > 256 * 1024 && db2 > 10 * ds2 {
+                    viols.push((
+                        format!("C15:memory_superlinear{{size_{}}}", family),
+                        format!("a program four times the size ({} lines) needs {} MiB more than an empty one, against {} MiB for {} lines: memory is not proportional to the input", 4 * n, db2 / 1024, ds2 / 1024, n),
+                    ));
+                }
+            }
+        }
+    }
+    (serde_json::Value::Object(table), viols)
+}
+
 fn scaling_case(seed: u64, run: u64, k: usize, thorough: bool) -> Case {
     let family = SCALING_FAMILIES[k % SCALING_FAMILIES.len()];
     // every macro use builds a parser of its own (milliseconds): keep that family small
